@@ -55,10 +55,13 @@ class Path:
             return ["recv", ["rlre", "absent"], None]
         if kind == "actRespData":
             hls = extra or "mal1"
+            status = 0
+            if isinstance(hls, tuple):          # (action result status, data)
+                status, hls = hls
             if self.ciphered:
-                ct, ic = self.seal(f"ard.0.{hls}")
+                ct, ic = self.seal(f"ard.{status}.{hls}")
                 return ["recv", ["ggc", MT, str(self.cfg.suite + 48), str(ic), ct], None]
-            return ["recv", ["ard", "0", hls], None]
+            return ["recv", ["ard", str(status), hls], None]
         if self.ciphered:
             ct, ic = self.seal(f"s.{kind}")
             return ["recv", ["ggc", MT, str(self.cfg.suite + 48), str(ic), ct], None]
@@ -149,9 +152,14 @@ class C03(fw.Prop):
             out.append(p.resp(k))
         out.append(p.resp("actRespData", "mal1"))
         out.append(p.resp("actRespData", p.valid_proof(78)))
+        # a meter that refuses reply_to_HLS but still returns data: the status decides, whatever the data proves
+        for status in (1, 3, 250):
+            out.append(p.resp("actRespData", (status, p.valid_proof(79))))
+        out.append(p.resp("actRespData", (3, "mal1")))
         # variants the state machine must treat like their kind: last-block TRUE written as 0xFF / 0x80, an exception-response
         # carrying an invocation counter, an AARE announcing an unusually small (or no) maximum PDU size
-        for k in ["getRespLastBlockFF", "getRespLastBlock80", "getRespLastBlockErrFF", "exceptionRespIc", "exceptionRespIcBig"]:
+        for k in ["getRespLastBlockFF", "getRespLastBlock80", "getRespLastBlockErrFF", "exceptionRespIc", "exceptionRespIcBig",
+                  "getRespBlockEmpty", "getRespLastBlockEmpty"]:
             out.append(p.resp(k))
         for size in (0, 5, 11, 12):
             p.maxpdu = size
@@ -231,7 +239,7 @@ class C03(fw.Prop):
                     if k == "aare":
                         extra = rng.choice([(0, None), (0, 5), (1, None), (0, 1)])
                     if k == "actRespData":
-                        extra = rng.choice(["mal1", p2.valid_proof(rng.randint(1, 500))])
+                        extra = rng.choice(["mal1", p2.valid_proof(rng.randint(1, 500)), (rng.choice([1, 3, 12]), p2.valid_proof(rng.randint(1, 500)))])
                     ops.append(p2.resp(k, extra))
             yield self.make_case({"cfg": cfg.to_json(), "cfgname": name, "ops": ops, "tag": "random-history"})
 
